@@ -201,8 +201,9 @@ func (c *Ctx) libConst(pkgPath, name string) int64 {
 	return 0
 }
 
-func c14ContextScope(c *Ctx) {
-	rule := "C14/context-scope"
+func c14ContextScope(c *Ctx) { c14ContextScopeAs(c, "C14/context-scope") }
+
+func c14ContextScopeAs(c *Ctx, rule string) {
 	fn := c.Fn("cmd/auth/ntlm", "NTLMAuth.Authenticate")
 	key := shortFn(fn)
 	sessField := func(v ssa.Value) bool {
